@@ -51,6 +51,17 @@ def quiet():
         sys.stdout = old
 
 
+def bounds(table, tier):
+    """The bounds of a check for a tier; VERIF_BOUNDS='{"S": 12}' overrides
+    single entries (for exploratory deeper runs; registered commands never set
+    it)."""
+    b = dict(table[tier])
+    ov = os.environ.get("VERIF_BOUNDS")
+    if ov:
+        b.update(json.loads(ov))
+    return b
+
+
 def seed():
     try:
         return int(os.environ.get("VERIF_SEED", "0"))
